@@ -1,5 +1,6 @@
 CONSTANTS
   Variant = "fixed"
+  UrlVariant = "code"
 INIT Init
 NEXT Next
 POSTCONDITION Done
